@@ -163,6 +163,7 @@ let b01 (b : bool) : string = if b then "1" else "0"
 (* comparisons across type classes: reported as unknown (the harness's own
    row evaluator uses the same convention) *)
 let xc (_ : cop) (_ : value) (_ : value) : tv = UU
+let xg (_ : value list) : tv = UU
 
 let run_line (line : string) : string =
   toks := List.filter (fun t -> t <> "") (String.split_on_char ' ' (String.trim line));
@@ -172,7 +173,7 @@ let run_line (line : string) : string =
       let st = parse_stats () in
       let rows = parse_rows () in
       let per = List.map (fun r ->
-        Printf.sprintf "%s/%s/%s" (show_tv (sat xc p r)) (b01 (in_statsb r st)) (b01 (known_mixed p st r))) rows in
+        Printf.sprintf "%s/%s/%s" (show_tv (sat xc xg p r)) (b01 (in_statsb r st)) (b01 (known_mixed p st r))) rows in
       String.concat " " (Printf.sprintf "e=%s old=%s" (b01 (eval_stats p st)) (b01 (eval_stats_shared_arms p st)) :: per)
   | "G" ->
       let k = next_int () in
@@ -186,7 +187,7 @@ let run_line (line : string) : string =
   | "X" ->
       let e = parse_expr () in
       let rows = parse_rows () in
-      String.concat " " (List.map (fun r -> show_tv (esat xc e r)) rows)
+      String.concat " " (List.map (fun r -> show_tv (esat xc xg e r)) rows)
   | t -> failwith ("bad command " ^ t)
 
 let () = serve run_line
